@@ -24,4 +24,14 @@ pub mod rdata_set_std {
             s@.len() == N ==> r is Some && r->Some_0@ == s@,
             s@.len() != N ==> r is None,
     { s.try_into().ok() }
+
+    /// TRUSTED: every octet string of RDATA size (<= 65535 octets) is the content
+    /// of some `Rdata`.  A spec-level existence fact: Verus has no spec constructor
+    /// for slices / unsized structs.  Used only to read the octets of the `&Rdata`
+    /// items the set iterator is specified to yield (`rd_of`).
+    #[verifier::external_body]
+    pub proof fn axiom_rdata_exists(s: Seq<u8>)
+        requires s.len() <= 65535,
+        ensures exists|r: &'static crate::rr::rdata::Rdata| r.octets@ == s,
+    {}
 }
